@@ -255,13 +255,295 @@ func (g *Gen) famOp(fam string) *Op {
 	switch fam {
 	case "str":
 		return g.strOp()
+	case "list":
+		return g.listOp()
+	case "set":
+		return g.setOp()
+	case "hash":
+		return g.hashOp()
+	case "zset":
+		return g.zsetOp()
 	default:
 		return g.keyOp()
 	}
 }
 
+// ---- element pools: small universes so that operations collide ----
+
+var elemPool = []string{"a", "b", "c", "", "a\x00", "10", "\xff"}
+
+func (g *Gen) elem() Value {
+	e := elemPool[g.pick(3)]
+	if g.chance(0.12) {
+		e = elemPool[g.pick(len(elemPool))]
+	}
+	switch g.pick(12) {
+	case 0:
+		return VBytes([]byte(e))
+	case 1:
+		if g.chance(0.25) {
+			return VNil()
+		}
+		if g.chance(0.25) {
+			return VBad()
+		}
+		return VInt(g.pick(3))
+	default:
+		return VStr(e)
+	}
+}
+func (g *Gen) elems(max int) []Value {
+	n := g.pick(max + 1)
+	vs := make([]Value, n)
+	for i := range vs {
+		vs[i] = g.elem()
+	}
+	return vs
+}
+
+func (g *Gen) index() int {
+	switch g.pick(12) {
+	case 0:
+		return math.MaxInt64
+	case 1:
+		return math.MinInt64
+	case 2:
+		return 1 << 40
+	default:
+		return g.pick(19) - 9
+	}
+}
+
+func (g *Gen) listOp() *Op {
+	k := g.key()
+	switch g.pick(24) {
+	case 0:
+		return LDelete(k, g.elem())
+	case 1:
+		return LDeleteBack(k, g.elem(), g.pick(5)-1)
+	case 2:
+		return LDeleteFront(k, g.elem(), g.pick(5)-1)
+	case 3, 4:
+		return LGet(k, g.index())
+	case 5, 6:
+		return LInsertAfter(k, g.elem(), g.elem())
+	case 7, 8:
+		return LInsertBefore(k, g.elem(), g.elem())
+	case 9:
+		return LLen(k)
+	case 10:
+		return LPopBack(k)
+	case 11:
+		return LPopBackPushFront(k, g.key())
+	case 12:
+		return LPopFront(k)
+	case 13, 14, 15:
+		return LPushBack(k, g.elem())
+	case 16, 17:
+		return LPushFront(k, g.elem())
+	case 18, 19, 20:
+		return LRange(k, g.index(), g.index())
+	case 21:
+		return LSet(k, g.index(), g.elem())
+	default:
+		return LTrim(k, g.index(), g.index())
+	}
+}
+
+var algs = []string{"union", "inter", "diff"}
+
+func (g *Gen) keyList(max int) []string {
+	n := g.pick(max + 1)
+	ks := make([]string, n)
+	for i := range ks {
+		ks[i] = g.key()
+	}
+	return ks
+}
+
+func (g *Gen) setOp() *Op {
+	k := g.key()
+	switch g.pick(22) {
+	case 0, 1, 2, 3:
+		return EAdd(k, g.elems(3)...)
+	case 4, 5:
+		return EDelete(k, g.elems(3)...)
+	case 6, 7, 8:
+		return EAlg(algs[g.pick(3)], g.keyList(3)...)
+	case 9, 10, 11:
+		return EStore(algs[g.pick(3)], g.key(), g.keyList(3)...)
+	case 12:
+		return EExists(k, g.elem())
+	case 13, 14:
+		return EItems(k)
+	case 15:
+		return ELen(k)
+	case 16, 17:
+		return EMove(k, g.key(), g.elem())
+	case 18:
+		return EPop(k)
+	case 19:
+		return ERandom(k)
+	default:
+		return EScan(k, g.pick(4), g.pattern2(), g.pick(4)-1)
+	}
+}
+
+var pat2Pool = []string{"*", "a*", "?", "[ab]", "[^a]", "b", "", "*0"}
+
+func (g *Gen) pattern2() string { return pat2Pool[g.pick(len(pat2Pool))] }
+
+var fieldPool = []string{"f1", "f2", "f3", ""}
+
+func (g *Gen) field() string {
+	if g.chance(0.1) {
+		return fieldPool[3]
+	}
+	return fieldPool[g.pick(3)]
+}
+func (g *Gen) fields(max int) []string {
+	n := g.pick(max + 1)
+	fs := make([]string, n)
+	for i := range fs {
+		fs[i] = g.field()
+	}
+	return fs
+}
+func (g *Gen) hashItems() []KV {
+	n := g.pick(4)
+	seen := map[string]bool{}
+	var items []KV
+	for i := 0; i < n; i++ {
+		f := g.field()
+		if seen[f] {
+			continue
+		}
+		seen[f] = true
+		items = append(items, KV{f, g.value()})
+	}
+	return items
+}
+
+func (g *Gen) hashOp() *Op {
+	k := g.key()
+	switch g.pick(22) {
+	case 0, 1:
+		return HDelete(k, g.fields(3)...)
+	case 2:
+		return HExists(k, g.field())
+	case 3:
+		return HFields(k)
+	case 4, 5:
+		return HGet(k, g.field())
+	case 6:
+		return HGetMany(k, g.fields(3)...)
+	case 7, 8:
+		return HIncr(k, g.field(), g.int())
+	case 9:
+		return HIncrFloat(k, g.field(), g.float())
+	case 10, 11:
+		return HItems(k)
+	case 12:
+		return HLen(k)
+	case 13:
+		return HScan(k, g.pick(4), []string{"*", "f*", "f[12]", "?1", ""}[g.pick(5)], g.pick(4)-1)
+	case 14, 15, 16:
+		return HSet(k, g.field(), g.value())
+	case 17, 18:
+		return HSetMany(k, g.hashItems()...)
+	case 19, 20:
+		return HSetNX(k, g.field(), g.value())
+	default:
+		return HValues(k)
+	}
+}
+
+var scorePool = []float64{math.Inf(-1), -1, 0, 0.5, 1, 1, math.Inf(1)}
+
+func (g *Gen) score() float64 {
+	if g.chance(0.03) {
+		return math.NaN()
+	}
+	if g.chance(0.05) {
+		return math.Copysign(0, -1)
+	}
+	return scorePool[g.pick(len(scorePool))]
+}
+
+var memberPool = []string{"a", "b", "c", "d"}
+
+func (g *Gen) member() Value {
+	if g.chance(0.08) {
+		return g.elem()
+	}
+	return VStr(memberPool[g.pick(4)])
+}
+func (g *Gen) members(max int) []Value {
+	n := g.pick(max + 1)
+	vs := make([]Value, n)
+	for i := range vs {
+		vs[i] = g.member()
+	}
+	return vs
+}
+func (g *Gen) rank() int {
+	if g.chance(0.05) {
+		return []int{math.MaxInt64, math.MinInt64}[g.pick(2)]
+	}
+	return g.pick(9) - 2
+}
+
+var aggs = []string{"sum", "min", "max"}
+
+func (g *Gen) zsetOp() *Op {
+	k := g.key()
+	switch g.pick(30) {
+	case 0, 1, 2, 3:
+		return ZAdd(k, g.member(), g.score())
+	case 4, 5:
+		n := g.pick(4)
+		seen := map[string]bool{}
+		var items []ZV
+		for i := 0; i < n; i++ {
+			m := memberPool[g.pick(4)]
+			if seen[m] {
+				continue
+			}
+			seen[m] = true
+			items = append(items, ZV{VStr(m), g.score()})
+		}
+		return ZAddMany(k, items...)
+	case 6:
+		return ZCount(k, g.score(), g.score())
+	case 7:
+		return ZDelete(k, g.members(3)...)
+	case 8, 9:
+		return ZDeleteRank(k, g.rank(), g.rank())
+	case 10:
+		return ZDeleteScore(k, g.score(), g.score())
+	case 11, 12:
+		return ZGetRank(k, g.member(), g.chance(0.5))
+	case 13:
+		return ZGetScore(k, g.member())
+	case 14, 15:
+		return ZIncr(k, g.member(), g.score())
+	case 16, 17, 18:
+		return ZAlg(g.chance(0.5), aggs[g.pick(3)], g.keyList(3)...)
+	case 19, 20, 21:
+		return ZStore(g.chance(0.5), aggs[g.pick(3)], g.key(), g.keyList(3)...)
+	case 22:
+		return ZLen(k)
+	case 23, 24, 25:
+		return ZRangeRank(k, g.rank(), g.rank(), g.chance(0.5))
+	case 26, 27, 28:
+		return ZRangeScore(k, g.score(), g.score(), g.chance(0.5), g.pick(5)-1, g.pick(5)-1)
+	default:
+		return ZScan(k, g.pick(4), pat2Pool[g.pick(len(pat2Pool))], g.pick(4)-1)
+	}
+}
+
 // txOK reports whether the operation exists at Tx level.
-func txOK(op *Op) bool { return op.RunDB == nil }
+func txOK(op *Op) bool { return op.RunDB == nil && !op.MultiMap }
 
 func (g *Gen) History(id int) *History {
 	h := &History{ID: id, Tag: g.Prof.Name}
@@ -327,6 +609,11 @@ func (h *History) Select(keep [][]int) *History {
 var Profiles = map[string]Profile{
 	"str": {Name: "str", Families: map[string]int{"str": 8, "key": 2}, MinSteps: 5, MaxSteps: 60, Blocks: true, Expiry: true},
 	"key": {Name: "key", Families: map[string]int{"str": 3, "key": 7}, MinSteps: 5, MaxSteps: 60, Blocks: true, Expiry: true},
+	"list": {Name: "list", Families: map[string]int{"list": 10, "key": 1}, MinSteps: 5, MaxSteps: 60, Blocks: true},
+	"set":  {Name: "set", Families: map[string]int{"set": 10, "key": 1}, MinSteps: 5, MaxSteps: 60, Blocks: true},
+	"hash": {Name: "hash", Families: map[string]int{"hash": 10, "key": 1}, MinSteps: 5, MaxSteps: 60, Blocks: true},
+	"zset": {Name: "zset", Families: map[string]int{"zset": 10, "key": 1}, MinSteps: 5, MaxSteps: 60, Blocks: true},
+	"mixed": {Name: "mixed", Families: map[string]int{"str": 2, "list": 2, "set": 2, "hash": 2, "zset": 2, "key": 3}, MinSteps: 5, MaxSteps: 80, Blocks: true, Expiry: true},
 }
 
 // Regenerate reproduces history number hid of a seeded run.
